@@ -33,12 +33,32 @@ func (db *DatabaseContext) DeleteRole(ctx context.Context, name string, purge bo
 		return base.ErrNotFound
 	}
 
+	if purge {
+		// Purging removes the role document: no sequence is needed.
+		return authenticator.DeleteRole(role, purge, 0)
+	}
+
 	seq, err := db.sequences.nextSequence(ctx)
 	if err != nil {
 		return err
 	}
 
-	return authenticator.DeleteRole(role, purge, seq)
+	err = authenticator.DeleteRole(role, purge, seq)
+	// The sequence is only carried by the deleted role's document. Release it when the delete failed, or when nothing was
+	// written with it (the role had already been deleted by someone else). After a timeout the outcome is unknown.
+	if !base.IsTimeoutError(err) {
+		unused := err != nil
+		if err == nil {
+			deletedRole, getErr := authenticator.GetRoleIncDeleted(name)
+			unused = getErr == nil && (deletedRole == nil || deletedRole.Sequence() != seq)
+		}
+		if unused {
+			if releaseErr := db.sequences.releaseSequence(ctx, seq); releaseErr != nil {
+				base.WarnfCtx(ctx, "Error returned when releasing sequence %d. Falling back to skipped sequence handling.  Error:%v", seq, releaseErr)
+			}
+		}
+	}
+	return err
 }
 
 // UpdatePrincipal updates or creates a principal from a PrincipalConfig structure.
